@@ -136,7 +136,7 @@ def forest_to_prog(alpha, forest):
 def names_pool(max_lets, full_last):
     """every naming of k lets + the register; `full_last` = also all bodies/sizes for k = max"""
     choices = (None,) + NAMES
-    values = {0: ((),), 1: ((1,), (0.5,)), 2: ((1, 2), (1, 0.5)), 3: ((1, 2, 0.5),)}
+    values = {0: ((),), 1: ((1,), (0.5,)), 2: ((1, 2), (1, 0.5), (1, 1)), 3: ((1, 2, 0.5), (1, 1, 0.5))}  # incl. lets of EQUAL value
     for k in range(0, max_lets + 1):
         lean = k == 3 and not full_last
         for vals in values[k]:
